@@ -12,45 +12,45 @@ NOTE = ("Trusted base: go/types + go/ssa (x/tools v0.29.0) + VTA/CHA call graph 
 # id -> (level text, technique, design ref)
 CLAIMS = {
  "C01": ("Structural necessary conditions of exclusive ownership are decided on every path (atomic-only mutation of head/tail/size by popper/pusher roles, CAS-win hand-out built from the expected-old value, successor under hasNext guard, reservation before take, header cleared before escape, reset-swing-link order in the pusher, header-write provenance, payload window). The headline behaviour - no double ownership under every interleaving - is NOT decided; static analysis cannot bound schedules.",
-         "who-may-write census over SSA access paths + dominance/value-identity rules on the CAS loops (go/ssa)", "DESIGN.md 4 C01"),
+         "who-may-write census over SSA access paths + dominance/value-identity rules on the CAS loops (go/ssa)", "DESIGN.md 4 C01 (plan), 0.3-0.4 (rules added since); RULES.md C01 (rule catalogue as implemented)"),
  "C02": ("Decides, on every CFG path, the counter compensation of the popper's failure exits, single counting after linking in the pusher, read-link-before-recycle in chain walkers, at-most-one push per recycle, and the class-selection agreement (distinct sizes enforced before creation). Chain/counter agreement at quiescence under all interleavings is NOT decided.",
-         "must-pass-through and reachability queries over the SSA CFG; sibling-agreement rule between recycler and config validation", "DESIGN.md 4 C02"),
+         "must-pass-through and reachability queries over the SSA CFG; sibling-agreement rule between recycler and config validation", "DESIGN.md 4 C02 (plan), 0.3-0.4 (rules added since); RULES.md C02 (rule catalogue as implemented)"),
  "C03": ("Decides writer/reader agreement of all five binary layouts by extracting (kind, offset, width, bound field, carried value) tables from the unsafe casts of creator, mapper and accessors and comparing them with each other and with the package's layout constants; plus size/stride formula shapes, queue half cross-wiring on both back-ends, presence of length guards and sort-before-create. In-bounds/disjointness for every configuration value (uint32 wrap-around) is NOT decided.",
-         "table extraction from unsafe casts in SSA + creator/mapper/accessor agreement check", "DESIGN.md 4 C03"),
+         "table extraction from unsafe casts in SSA + creator/mapper/accessor agreement check", "DESIGN.md 4 C03 (plan), 0.3-0.4 (rules added since); RULES.md C03 (rule catalogue as implemented)"),
  "C04": ("Decides the publication discipline of the queue on every path: write-slot-then-publish, read-slot-then-release, index identity with the checked cursor, producer wholly inside the mutex and released on every exit, full/empty checks on the right edges, single writer role per cursor and single consumer call site. Exactly-once/order under all interleavings and wrap-around values are NOT decided.",
-         "dominance + must-held lock-region dataflow + access-path census (go/ssa)", "DESIGN.md 4 C04"),
+         "dominance + must-held lock-region dataflow + access-path census (go/ssa)", "DESIGN.md 4 C04 (plan), 0.3-0.4 (rules added since); RULES.md C04 (rule catalogue as implemented)"),
  "C05": ("Decides the shape of the wake-up hand-shake on every path: enqueue => wake attempt before any success exit, CAS winner always emits, clear -> re-check -> re-set order of go-idle, drain loop exits only idle-and-empty, census of flag writers. The temporal claim (no stranded element under every interleaving) is NOT decided.",
-         "edge-sensitive must-pass-through over the SSA CFG + ordering (dominance) rules", "DESIGN.md 4 C05"),
+         "edge-sensitive must-pass-through over the SSA CFG + ordering (dominance) rules", "DESIGN.md 4 C05 (plan), 0.3-0.4 (rules added since); RULES.md C05 (rule catalogue as implemented)"),
  "C08": ("Decides the ownership discipline behind zero-copy reads on every path: pin before an aliasing return, recycle a consumed front slice only on the not-pinned edge (park it otherwise), pinned mark cleared only after that decision, pinned slices released only by ReleasePreviousRead / ReleaseReadAndReuse / buffer recycle on close and completely, reuse-reset only after the release. That the bytes stay bit-identical additionally depends on C01 and is NOT decided.",
-         "value-flow (alias) classification of returns + dominance / edge-placement rules + who-may-call census (go/ssa)", "DESIGN.md 4 C08"),
+         "value-flow (alias) classification of returns + dominance / edge-placement rules + who-may-call census (go/ssa)", "DESIGN.md 4 C08 (plan), 0.3-0.4 (rules added since); RULES.md C08 (rule catalogue as implemented)"),
  "C09": ("Decides that no exit drops a shared-memory chain: path-sensitive must-pass-through over Flush (recycle | fallback copy+recycle | successful hand-over), per-element disposal in the poller, container coverage of stream close (every *sliceList field that receives slices, pending arrivals), add-before-state-read for late data, per-slice disposal in the receive-side re-linker and in pendingData.clear, unused-tail return in done(), census of main-list pops. Quiescence accounting under concurrent schedules is NOT decided.",
-         "path-sensitive must-pass-through (branch-outcome consistent DFS over the SSA CFG) + container coverage", "DESIGN.md 4 C09"),
+         "path-sensitive must-pass-through (branch-outcome consistent DFS over the SSA CFG) + container coverage", "DESIGN.md 4 C09 (plan), 0.3-0.4 (rules added since); RULES.md C09 (rule catalogue as implemented)"),
  "C10": ("Decides the stream state machine structurally: census of every write of Stream.state with constant-resolved (old,new) pairs against the forward-only relation, transition ownership by call-graph role, value-directed path search through the close routine for every state a local close can start from (notify channel, one callback, peer notification), callbacks only behind a won CAS, table removal under the lock, refusal guards of Flush/reset. Orderings of two-sided close are NOT decided.",
-         "state-transition extraction (CAS operands) + role reachability + value-directed path search (go/ssa)", "DESIGN.md 4 C10"),
+         "state-transition extraction (CAS operands) + role reachability + value-directed path search (go/ssa)", "DESIGN.md 4 C10 (plan), 0.3-0.4 (rules added since); RULES.md C10 (rule catalogue as implemented)"),
  "C13": ("Decides that no panic site in wire-handling code is reachable with unchecked wire-derived operands: every bound of every make/slice/index/BigEndian access in the wire scope is proved from dominating length checks by a small linear-fact engine with inferred callee preconditions and an inductive invariant for the event loop (handlers' consumed-bytes postcondition); plus dispatch guards, message-type matrix, handshake handler guards, nil-checks of optional Session pointers, restartability of handlers and error containment. An unprovable site fails closed (UNPROVEN). Non-wire panics (OOM) and semantic equality of chunked delivery are NOT decided.",
-         "abstract interpretation over SSA (linear terms over wire atoms, facts from branch edges, no solver) + dominance rules", "DESIGN.md 4 C13"),
+         "abstract interpretation over SSA (linear terms over wire atoms, facts from branch edges, no solver) + dominance rules", "DESIGN.md 4 C13 (plan), 0.3-0.4 (rules added since); RULES.md C13 (rule catalogue as implemented)"),
  "C15": ("Decides the pool's ownership discipline on every path (pop => return-or-close, put => keep-or-close), hand-out and reuse guards (open, live session, no unread/pending bytes, state cleared), and that ring state is only touched under the pool mutex with exactly one cursor advance per successful pop/push. Histories with concurrent peer closes / session loss are NOT decided.",
-         "path-sensitive must-pass-through + must-held lock-region dataflow (go/ssa)", "DESIGN.md 4 C15"),
+         "path-sensitive must-pass-through + must-held lock-region dataflow (go/ssa)", "DESIGN.md 4 C15 (plan), 0.3-0.4 (rules added since); RULES.md C15 (rule catalogue as implemented)"),
  "C18": ("Decides the structure behind exactly-once/in-order event bytes: writes only under the Session.writing CAS flag (must-held dataflow, released on all exits, send loop woken), shape of the partial-write loop (cursor advanced by exactly the syscall result, never on EAGAIN), consistent use of the receive window [readStartOff:readEndOff] in callback, grow and commit, and AST-equality of the build-variant files (race/non-race dispatcher, amd64/arm64 epoll) modulo an allow-list. Kernel-IO behaviours and exactly-once as such are NOT decided.",
-         "CAS-flag region dataflow + accumulator-phi shape rules + access census of the receive window + AST equality of variant files", "DESIGN.md 4 C18"),
+         "CAS-flag region dataflow + accumulator-phi shape rules + access census of the receive window + AST equality of variant files", "DESIGN.md 4 C18 (plan), 0.3-0.4 (rules added since); RULES.md C18 (rule catalogue as implemented)"),
  "C19": ("Decides the adapter's structural obligations: wrapped stream delivered-or-closed on every path, wait-group Add/Done pairing (each Done classified as CAS-once, membership+delete under the mutex, or drain+reset under the mutex), delegation identity of Read/Write/deadlines down to the copy paths, close/shutdown arms of Accept. Socket semantics over histories are NOT decided.",
-         "path search from select sites + classification census of WaitGroup operations + delegation identity (go/ssa)", "DESIGN.md 4 C19"),
+         "path search from select sites + classification census of WaitGroup operations + delegation identity (go/ssa)", "DESIGN.md 4 C19 (plan), 0.3-0.4 (rules added since); RULES.md C19 (rule catalogue as implemented)"),
  "C06": ("A deliberately narrow claim: byte equality of the pipe over all size sequences is a value property and is NOT decided. Decided on every path: the size>=1 guard of every sized reader entry point before the front slice is touched, Peek's purity (no cursor advance/unlink/length change in its transitive body; bufferSlice.peek restores the cursor), exactly-one length adjustment per successful return of each consuming/producing entry point, and the census of cursor/length writers.",
-         "sibling-guard dominance + effect census over a transitive body + per-return must-pass-through (go/ssa)", "DESIGN.md 4 C06"),
+         "sibling-guard dominance + effect census over a transitive body + per-return must-pass-through (go/ssa)", "DESIGN.md 4 C06 (plan), 0.3-0.4 (rules added since); RULES.md C06 (rule catalogue as implemented)"),
  "C07": ("Decides the structural conditions of stream isolation and single-channel ordering: id identity at every send site and lookup-key identity on the receive side (under the lock), sticky fallback mark (census of its writers), transport chosen after the mark is updated, close notification on the channel the data uses, status operands. Order across the two channels under all schedules is NOT decided.",
-         "value-identity rules on SSA operands + who-may-write census + edge-placement (dominance) rules", "DESIGN.md 4 C07"),
+         "value-identity rules on SSA operands + who-may-write census + edge-placement (dominance) rules", "DESIGN.md 4 C07 (plan), 0.3-0.4 (rules added since); RULES.md C07 (rule catalogue as implemented)"),
  "C11": ("Decides that every blocking primitive of the package (census of all selects, bare sends/receives, WaitGroup.Wait, sleeps) has an escape that a teardown role triggers or is a listed exception with a re-verified side-condition; Session.Close wakes every stream and closes shutdownCh before posting the teardown; every departure from opened closes the notify channel; readMore re-checks after every wake-up and arms/stops its deadline timer; Flush's retry loop is constant-bounded. All timing claims are NOT decided.",
-         "exhaustive census of blocking instructions with classification table + ordering/must-pass-through rules (go/ssa)", "DESIGN.md 4 C11"),
+         "exhaustive census of blocking instructions with classification table + ordering/must-pass-through rules (go/ssa)", "DESIGN.md 4 C11 (plan), 0.3-0.4 (rules added since); RULES.md C11 (rule catalogue as implemented)"),
  "C12": ("Decides min-shaped version agreement on both ends, release of every acquired resource on the peer-caused error exits of session establishment (descriptor, mappings, references, received fds), the timeout arm + buffered result channel of the handshake race, and value-flow identity of announced vs mapped paths and descriptors (wire order agreement sender/receiver). Same-memory identity and the version/back-end outcome matrix are NOT decided; local syscall-failure exits are outside the quantifier.",
-         "path-sensitive must-pass-through from acquisition success edges to error exits + shape/identity rules (go/ssa)", "DESIGN.md 4 C12"),
+         "path-sensitive must-pass-through from acquisition success edges to error exits + shape/identity rules (go/ssa)", "DESIGN.md 4 C12 (plan), 0.3-0.4 (rules added since); RULES.md C12 (rule catalogue as implemented)"),
  "C14": ("Decides the teardown discipline: idempotent Close (every effect behind the CAS-success edge), once-guarded channel closes, reachability of Session.Close from every connection failure signal, completeness of the posted teardown closure and of the unmap routines for every mapping type, nil-table guard of stream insertion, registry insert/delete pairing. Crash points and unmap-vs-in-flight races are NOT decided.",
-         "dominance census of effects + call-chain reachability (VTA) + value-directed path search per mapping type (go/ssa)", "DESIGN.md 4 C14"),
+         "dominance census of effects + call-chain reachability (VTA) + value-directed path search per mapping type (go/ssa)", "DESIGN.md 4 C14 (plan), 0.3-0.4 (rules added since); RULES.md C14 (rule catalogue as implemented)"),
  "C16": ("Decides that neither hot-restart state machine can stay in hotRestartState without a time-out: entering the state arms the checker or undoes itself on every path (one exception with re-verified infeasibility side-conditions), the checkers leave the state on every exit with an armed timer, state changes are behind epoch tests, acks only on the all-swapped edge. Completion, usability and bounded time are NOT decided.",
-         "must-pass-through from state-entry stores + per-exit rules of the checker role + epoch-guard dominance (go/ssa)", "DESIGN.md 4 C16"),
+         "must-pass-through from state-entry stores + per-exit rules of the checker role + epoch-guard dominance (go/ssa)", "DESIGN.md 4 C16 (plan), 0.3-0.4 (rules added since); RULES.md C16 (rule catalogue as implemented)"),
  "C17": ("Decides the shape of the healing loop: pool closed on loss, failed reconnect => another attempt (exits only success / epoch change / cancellation), reconnect on the epoch-unchanged edge under the manager lock, rebuilt session installed, cancellation arms on every wait and cancel-before-wait in Close, no blocking operation on the failing GetStream path. Timing and repeated-loss interplay are NOT decided.",
-         "path search from the reconnect's failure edge + dominance/lock-region rules (go/ssa)", "DESIGN.md 4 C17"),
+         "path search from the reconnect's failure edge + dominance/lock-region rules (go/ssa)", "DESIGN.md 4 C17 (plan), 0.3-0.4 (rules added since); RULES.md C17 (rule catalogue as implemented)"),
  "C20": ("Decides the shape of the callback hand-off: publish-then-take in the event loop, spawn only as CAS winner after wait-group registration, clear -> re-check -> re-take in the goroutine (OnData again only behind a won re-take), OnData guards (open, bytes buffered, pending moved), exactly-one Done on every exit before the deferred close, deferred-close side-conditions. Eventual delivery and byte order are NOT decided.",
-         "ordering (dominance) and edge-restricted reachability rules inside the spawned closure (go/ssa)", "DESIGN.md 4 C20"),
+         "ordering (dominance) and edge-restricted reachability rules inside the spawned closure (go/ssa)", "DESIGN.md 4 C20 (plan), 0.3-0.4 (rules added since); RULES.md C20 (rule catalogue as implemented)"),
 }
 
 NA_DEFAULT = "checker for this property not built yet (implementation in progress); see DESIGN.md"
